@@ -302,12 +302,14 @@ theorem rename_no_pref {δ : Type} (le : α → α → Bool) (a : AMap α) (cols
     | some k => simpa using invGet_some_mem hg
 
 /-- **The preferred name is chosen.**  For an instance map (`WF`, no alias is a target), a string order
-    that is linear, and preferred names that passed the constructor's check: the export succeeds, and the
-    column of a variable `t` that has a preferred alias `p` is called `p`. -/
+    that is linear, and preferred names that passed the constructor's check: the export succeeds, the
+    column of a variable `t` that has a preferred alias `p` is called `p`, and a variable whose own name is
+    preferred keeps it. -/
 theorem rename_prefers {δ : Type} {le : α → α → Bool} (ho : LinOrd le) {a : AMap α} (hwf : WF a)
     (hc : chained a = false) {pref : List α} (hne : pref ≠ []) (hchk : prefCheck a pref = true)
     (cols : List (α × δ)) :
-    ∃ f, exportCols le a pref cols = some (renameDf f cols) ∧ ∀ p t, p ∈ pref → (p, t) ∈ a → f t = p := by
+    ∃ f, exportCols le a pref cols = some (renameDf f cols) ∧ (∀ p t, p ∈ pref → (p, t) ∈ a → f t = p) ∧
+      (∀ t, t ∈ pref → f t = t) := by
   have hsorted := sorted_sortByVal ho a
   obtain ⟨hdist, hcomplete⟩ := groups_complete ho _ hsorted
   have huniq : ∀ g ∈ groups (sortByVal le a), UniquePref pref g.1 g.2 := by
@@ -321,9 +323,18 @@ theorem rename_prefers {δ : Type} {le : α → α → Bool} (ho : LinOrd le) {a
     exact uniquePref_of_check hwf hc hchk ht hin
   obtain ⟨r, hr⟩ := replacements_some_of_no_ambiguous (pref := pref)
     (fun g hg => choose_not_ambiguous (huniq g hg))
-  refine ⟨fun c => (getLast r c).getD c, ?_, ?_⟩
+  refine ⟨fun c => (getLast r c).getD c, ?_, ?_, ?_⟩
   · have : pref.isEmpty = false := by cases pref <;> simp_all
     simp [exportCols, this, exportPref, hr]
+  rotate_left
+  · intro t ht
+    show (getLast r t).getD t = t
+    cases hg : getLast r t with
+    | none => rfl
+    | some x =>
+      obtain ⟨g, hgm, hg1, hch⟩ := (mem_replacements hr t x).mp (getLast_some_mem hg)
+      have := choose_rename_of_target_pref (huniq g hgm) (by rw [hg1]; exact ht) hch
+      simp [this, hg1]
   · intro p t hp hpt
     obtain ⟨g, hg, hg1, hpg⟩ := groups_cover _ p t ((mem_sortByVal le a _).mpr hpt)
     have hs := groups_sound _ g hg
@@ -370,7 +381,7 @@ theorem rename_total_after_check {δ : Type} {le : α → α → Bool} (ho : Lin
     exportCols le a pref cols ≠ none := by
   by_cases hne : pref = []
   · subst hne; simp [exportCols]
-  · obtain ⟨f, hf, _⟩ := rename_prefers ho hwf hc hne hchk cols
+  · obtain ⟨f, hf, _, _⟩ := rename_prefers ho hwf hc hne hchk cols
     simp [hf]
 
 end Fsic.C18
